@@ -166,7 +166,8 @@ def f_eq_bool(pybool, formula):
 
 
 # ------------------------------------------------------------------ O2b: factories never touch a deny-listed item (real scratch tree, recording context)
-FACTORIES = ["simple_file", "glob_file", "first_file", "foreach_collect", "simple_command", "command_with_args", "foreach_execute"]
+FACTORIES = ["simple_file", "glob_file", "first_file", "foreach_collect", "simple_command", "command_with_args", "foreach_execute",
+             "container_execute", "container_collect"]
 
 
 class RecordingHost(HostContext):
@@ -206,7 +207,15 @@ def run_factory(fname, denied_idx, mode):
     saved_f, saved_c = (set(blacklist._FILE_FILTERS), set(blacklist._COMMAND_FILTERS)) if NATIVE else (list(blacklist._FILE_FILTERS._it), list(blacklist._COMMAND_FILTERS._it))
     opened = []
     real_open = SF.safe_open if hasattr(SF, "safe_open") else None
+    real_which = SF.which
+    if fname.startswith("container"):
+        SF.which = lambda cmd, env=None: cmd        # no container engine is installed here: the engine binary is taken to exist
     try:
+        if fname == "container_execute":
+            # inside containers the command line that is run (and deny-listed) is "<engine> exec <container> <command>"
+            cmds = ["/usr/bin/podman exec one /bin/echo x", "/usr/bin/podman exec two /bin/echo x"]
+        elif fname == "container_collect":
+            cmds = ["/usr/bin/podman exec one cat /etc/x.conf", "/usr/bin/podman exec two cat /etc/x.conf"]
         if mode == "config":
             collect.apply_blacklist({"files": [files[denied_idx]], "commands": [cmds[denied_idx]]})
         else:
@@ -233,6 +242,12 @@ def run_factory(fname, denied_idx, mode):
             arg.__name__ = "arg"
             arg_ds = SF.datasource(HostContext)(arg)
             dss = [SF.command_with_args("/bin/echo %s", arg_ds)]
+        elif fname in ("container_execute", "container_collect"):
+            def conts(broker):
+                return [("img", "podman", "one"), ("img", "podman", "two")]
+            conts.__name__ = "conts"
+            conts_ds = SF.datasource(HostContext)(conts)
+            dss = [SF.container_execute(conts_ds, "/bin/echo x")] if fname == "container_execute" else [SF.container_collect(conts_ds, "/etc/x.conf")]
         else:
             dss = [SF.foreach_execute(names_ds, "/bin/echo %s")]
         ctx = RecordingHost(root, log)
@@ -255,6 +270,7 @@ def run_factory(fname, denied_idx, mode):
         touched += [" ".join(c[0]) if isinstance(c, list) and c and isinstance(c[0], list) else str(c) for k, c in log]
         return touched, files[denied_idx], cmds[denied_idx]
     finally:
+        SF.which = real_which
         if NATIVE:
             blacklist._FILE_FILTERS.clear(); blacklist._FILE_FILTERS.update(saved_f)  # noqa
             blacklist._COMMAND_FILTERS.clear(); blacklist._COMMAND_FILTERS.update(saved_c)  # noqa
@@ -282,7 +298,7 @@ def make_factories():
             bad = judge_factory(touched, dfile, dcmd)
             en.must_hold(not bad, "deny-list", case, detail=bad)
             # and the allowed sibling is still collected (the deny list is not over-applied)
-            other = ["/etc/one.conf", "/etc/two.conf"][1 - didx] if "file" in fname or "collect" in fname else ["one", "two"][1 - didx]
+            other = ["/etc/one.conf", "/etc/two.conf"][1 - didx] if ("file" in fname or "collect" in fname) and not fname.startswith("container") else ["one", "two"][1 - didx]
             if fname not in ("first_file", "command_with_args"):
                 en.must_hold(any(other in t for t in touched), "deny-list", case, detail="the allowed item %s was not collected (touched %s)" % (other, touched))
     return fn
@@ -371,8 +387,8 @@ def obligations(tier):
         Obligation("O2b-factories", make_factories(), ["deny-list"],
                    desc="every declarative factory evaluated under a recording HostContext on a scratch tree with one of its two items deny-listed (directly or through apply_blacklist)",
                    bounds={"factories": FACTORIES, "denied item": "either", "registration": ["blacklist.add_*", "collect.apply_blacklist"]},
-                   stubs=["HostContext.shell_out / check_output record the command instead of executing it"],
-                   outside=["container_execute / container_collect (need a container engine); listdir / listglob read names only"],
+                   stubs=["HostContext.shell_out / check_output record the command instead of executing it", "for the two container factories `which` answers that the engine binary exists (no container engine is installed here)"],
+                   outside=["listdir / listglob read names only"],
                    encoded=enc[1:2] + enc[4:12], budget_s=120, replay="factory", check_sample=True),
         Obligation("O3-destinations", make_dest(6 if thorough else 5), ["written-inside-output"],
                    desc="destination computed by the six provider serializers for a symbolic relative path and each save-as form",
